@@ -199,7 +199,7 @@ def jobs(tier):
     for h in (1, 2):
         for s in all_strings(1):
             add("cplx-sample-1x%d-%s" % (h, s), "per_sample", kind="complex", n=1, h=h, a=None, strings=[s])
-    c2 = ["XY", "YZ", "YY", "ZZ"] if tier == "quick" else all_strings(2)
+    c2 = ["XY", "YZ", "YY", "ZZ", "ZX"] if tier == "quick" else all_strings(2)
     for s in c2:
         add("cplx-sample-2x2-%s" % s, "per_sample", kind="complex", n=2, h=2, a=None, strings=[s])
     add("cplx-batch-2x2", "batch", kind="complex", n=2, h=2, a=None, data=[[0, 1], [1, 1], [0, 1], [1, 0], [0, 0]], bases=["XY", "ZZ", "XY", "YZ", "ZZ"])
